@@ -1,23 +1,36 @@
 --------------------------- MODULE MC_AlphaAttrs ---------------------------
-(* Bounded-exhaustive exploration: every insertion order of every attribute set of up to    *)
-(* MaxAttrs attributes over Universe.  Each reached state is also exported as a behaviour   *)
-(* (input token, expected output token) to be replayed into the real filter.                *)
+(* Bounded-exhaustive exploration: token streams of up to MaxTags tags (with an optional     *)
+(* non-tag token in between), each tag carrying every insertion order of every attribute     *)
+(* set of up to MaxAttrs attributes over Universe.  Each reached state is also exported as a *)
+(* behaviour (input stream, expected output stream) and replayed into ONE real filter        *)
+(* instance, so memory between tokens (which the design forbids) is observable.              *)
 EXTENDS AlphaAttrs, TLC, Json
-CONSTANTS MaxAttrs, Export
+CONSTANTS MaxAttrs, MaxTags, Big, Export
 
-NSs    == {None, <<120, 108>>, <<120>>, <<121>>}                       \* None "xl" "x" "y"
-Locals == {<<97>>, <<98>>, <<104, 114, 101, 102>>, <<120, 97>>}       \* a b href xa
-Values == {<<>>, <<49>>}
+NSs    == IF Big THEN {None, <<120, 108>>, <<120>>, <<121>>} ELSE {None, <<120>>}    \* None "xl" "x" "y"
+Locals == IF Big THEN {<<97>>, <<98>>, <<104, 114, 101, 102>>, <<120, 97>>} ELSE {<<97>>, <<98>>}
+Values == IF Big THEN {<<>>, <<49>>} ELSE {<<49>>}
 Universe == {<<n, l, v>> : n \in NSs, l \in Locals, v \in Values}
 
-VARIABLES attrs
-Tok == [t |-> "StartTag", n |-> <<97>>, ns |-> None, a |-> attrs, d |-> <<>>, p |-> None, s |-> None]
+VARIABLES done, attrs
+Mk(t, as) == [t |-> t, n |-> <<97>>, ns |-> None, a |-> as, d |-> <<>>, p |-> None, s |-> None]
+Tok == Mk("StartTag", attrs)
+Stream == Append(done, Tok)
+NTags == Cardinality({i \in 1..Len(done) : IsTag(done[i])}) + 1
 
-Init == attrs = <<>>
+Init == done = <<>> /\ attrs = <<>>
 Add(at) == /\ Len(attrs) < MaxAttrs
            /\ \A i \in 1..Len(attrs) : <<attrs[i][1], attrs[i][2]>> # <<at[1], at[2]>>
-           /\ attrs' = Append(attrs, at)
-Next == \E at \in Universe : Add(at)
+           /\ attrs' = Append(attrs, at) /\ UNCHANGED done
+NewTag == /\ NTags < MaxTags /\ attrs # <<>>
+          /\ \/ done' = Append(done, Tok)
+             \/ done' = done \o <<Tok, [Mk("Characters", <<>>) EXCEPT !.d = <<98, 32, 97>>, !.n = None]>>
+             \/ done' = Append(done, Mk("EmptyTag", attrs))
+          /\ attrs' = <<>>
+Next == (\E at \in Universe : Add(at)) \/ NewTag
+
+RECURSIVE MapStep(_)
+MapStep(toks) == IF toks = <<>> THEN <<>> ELSE <<AlphaStep(toks[1])>> \o MapStep(Tail(toks))
 
 \* theorems
 ThmOnlyReorders == OnlyReorders(Tok, AlphaStep(Tok))
@@ -28,5 +41,5 @@ ThmOrderIndependent ==
         \A i \in 1..Len(attrs) - 1 :
             LET sw == [attrs EXCEPT ![i] = attrs[i + 1], ![i + 1] = attrs[i]]
             IN SortAttrs(sw) = SortAttrs(attrs)
-ThmExport == Export => PrintT(ToJson([inp |-> Tok, out |-> AlphaStep(Tok)]))
+ThmExport == Export => PrintT(ToJson([inp |-> Stream, out |-> MapStep(Stream)]))
 =============================================================================
